@@ -18,6 +18,7 @@ limitations under the License.
 package gogen
 
 import (
+	"fmt"
 	"go/ast"
 	"go/token"
 	"go/types"
@@ -774,10 +775,12 @@ func (p *CodeBuilder) instantiate(nidx int, args []*internal.Elem, src ...ast.No
 }
 
 func instanceInferFunc(pkg *Package, arg *internal.Elem, tsig *inferFuncType, sig *types.Signature) error {
-	args := paramsToArgs(sig)
-	targs, _, err := inferFunc(tsig.pkg, tsig.fn, tsig.typ, tsig.targs, args, 0)
+	targs, inst, err := inferFuncAs(tsig.pkg, tsig.fn, tsig.typ, tsig.targs, sig)
 	if err != nil {
 		return err
+	}
+	if !types.Identical(inst, sig) { // the parameters fit, the results do not
+		return fmt.Errorf("instantiated type %v does not match %v", inst, sig)
 	}
 	arg.Type = sig
 	index := make([]ast.Expr, len(targs))
@@ -799,10 +802,12 @@ func instanceInferFunc(pkg *Package, arg *internal.Elem, tsig *inferFuncType, si
 }
 
 func instanceFunc(pkg *Package, arg *internal.Elem, tsig *types.Signature, sig *types.Signature) error {
-	args := paramsToArgs(sig)
-	targs, _, err := inferFunc(pkg, &internal.Elem{Val: arg.Val}, tsig, nil, args, 0)
+	targs, inst, err := inferFuncAs(pkg, &internal.Elem{Val: arg.Val}, tsig, nil, sig)
 	if err != nil {
 		return err
+	}
+	if !types.Identical(inst, sig) { // the parameters fit, the results do not
+		return fmt.Errorf("instantiated type %v does not match %v", inst, sig)
 	}
 	arg.Type = sig
 	if len(targs) == 1 {
